@@ -258,7 +258,7 @@ def fuse(t):
     if not isinstance(t, tuple):
         return t
     t2 = tuple(fuse(x) for x in t)
-    if t2 and t2[0] == 'iter' and len(t2) >= 2 and isinstance(t2[1], tuple) and t2[1] and t2[1][0] == 'comp' and t2[1][1] in ('gen', 'list'):
+    if t2 and t2[0] == 'iter' and len(t2) >= 2 and isinstance(t2[1], tuple) and t2[1] and t2[1][0] == 'comp' and t2[1][1] in ('gen', 'list') and len(t2[1]) == 3:
         return t2[1][2]
     return t2
 
@@ -313,11 +313,11 @@ def rule_K_INFO_TYPED_SENT(ctx, repo):
             if typed:
                 def is_type_of(t, elem_pred):
                     return t[0] == 'call' and (t[1] == ('attr', SELF, '_type') or (t[1][0] == 'lib' and t[1][1] == 'type')) and len(t[2]) == 1 and elem_pred(t[2][0])
-                a_ok = contains_term(v, lambda t: t[0] == 'comp' and is_type_of(t[2], lambda e: e[0] == 'iter' and e[1] == va))
+                a_ok = contains_term(v, lambda t: t[0] == 'comp' and len(t) == 3 and is_type_of(t[2], lambda e: e[0] == 'iter' and e[1] == va))
                 need_kw = (meth == 'encrypt') or bool(kwtruth)
                 k_ok = True
                 if need_kw:
-                    k_ok = contains_term(v, lambda t: t[0] == 'comp' and is_type_of(
+                    k_ok = contains_term(v, lambda t: t[0] == 'comp' and len(t) == 3 and is_type_of(
                         t[2], lambda e: e[0] == 'proj' and e[1] == 1 and e[2][0] == 'iter' and issorted(e[2][1])))
                 ok = a_ok and k_ok
                 ctx.ob('K-TYPED', 'keymap.%s' % meth, ok)
@@ -373,6 +373,41 @@ def has_sub(t):
     return contains_term(t, lambda x: x[0] in ('sub', 'proj') and not (x[0] == 'sub' and x[1][0] == 'lib'))
 
 
+LOSSLESS_CALLS = ('hexdigest', 'digest', 'new', 'encode', 'bytes', 'bytearray', 'memoryview', 'str', 'update', 'md5', 'sha1', 'sha224', 'sha256',
+                  'sha384', 'sha512', 'blake2b', 'blake2s', 'sha3_256', 'sha3_512', 'sha3_224', 'sha3_384')
+
+
+def spine(t, pred):
+    """the chain of terms from t down to the first subterm satisfying pred (excluding that subterm), or None"""
+    if not isinstance(t, tuple) or not t or not isinstance(t[0], str):
+        return None
+    if pred(t):
+        return []
+    for c in t[1:]:
+        if isinstance(c, tuple):
+            if c and isinstance(c[0], str):
+                r = spine(c, pred)
+                if r is not None:
+                    return [t] + r
+            else:
+                for cc in c:
+                    if isinstance(cc, tuple):
+                        r = spine(cc, pred)
+                        if r is not None:
+                            return [t] + r
+    return None
+
+
+def lossless_step(t):
+    if t[0] == 'call':
+        f = t[1]
+        name = f[2] if f[0] == 'attr' else (libname(f) if f[0] == 'lib' else None)
+        return name in LOSSLESS_CALLS
+    if t[0] in ('attr', 'kw', 'star', 'tuple'):
+        return True
+    return False
+
+
 def rule_K_HASH(ctx, repo):
     m, fs = crypto_funcs(repo)
     # hash(): named algorithm -> hexdigest of the full repr
@@ -394,6 +429,13 @@ def rule_K_HASH(ctx, repo):
         ok = v[0] == 'call' and v[1][0] == 'attr' and v[1][2] in ('hexdigest', 'digest') and not has_sub(v)
         if ok:
             ok = contains_term(v, lambda t: t[0] == 'call' and t[1][0] == 'lib' and libname(t[1]) in ('repr', 'str', 'dumps') and t[2] and t[2][0] == obj)
+        if ok:
+            # everything between repr(obj) and the digest must be lossless (encode / bytes / the hashlib constructor): a substitution, strip,
+            # slice or case fold between the two maps distinct reprs to one digest
+            sp = spine(v, lambda t: t[0] == 'call' and t[1][0] == 'lib' and libname(t[1]) in ('repr', 'str', 'dumps') and t[2] and t[2][0] == obj)
+            lossy = [x for x in (sp or []) if not lossless_step(x)]
+            if lossy:
+                ok = False
         ctx.ob('K-HASH', 'crypto.hash', ok)
         if not ok:
             ctx.fail('K-HASH', fi.qual, 'digest of %s' % render(v)[:80],
